@@ -206,11 +206,16 @@ class Engine(object):
     def ev_Name(self, n, st, k):
         nm = n.id
         if nm in st.env:
-            return k(st, st.env[nm])
+            v = st.env[nm]
+            if v.ty.kind == 'opt':
+                return self.resolve_opt(st, v, k)
+            return k(st, v)
         if getattr(n, '_is_ghost', False) and nm in st.ghost:
             return k(st, st.ghost[nm])       # ghost code may read loop-index ghosts
         if nm == 'is_python_3':
             return k(st, mk_bool(True))
+        if nm in self.TYPE_TAGS or nm in self.repo.classes:
+            return k(st, SV(Ty('meta'), self.type_tag_of_name(self, nm)))      # a type used as a value: type(x) == T
         mc = self.repo.module_consts.get((self.cur_module(st), nm))
         if mc is not None:
             return self.ev(mc, st, k)
@@ -1018,6 +1023,12 @@ class Engine(object):
 
     def assign(self, tgt, v, st, k):
         if isinstance(tgt, ast.Name):
+            # declared type of a local (sidecar hint ('local', name)): e.g. an Optional that starts as None
+            lt = (self.cur_spec.hints.get(('local', tgt.id)) if (self.cur_spec and st.ctl.inl is None) else None)
+            if st.ctl.inl is not None:
+                lt = st.ctl.inl[0].hints.get(('local', tgt.id))
+            if lt is not None and lt.kind == 'opt' and v.ty != lt:
+                v = SV(lt, pack(v, lt))
             st.env[tgt.id] = v
             return k(st)
         if isinstance(tgt, (ast.Tuple, ast.List)):
